@@ -60,7 +60,7 @@ SECTIONS = [None, b"", b"A", b"[A]", b"B", b"[B]", b"_none_", b"C c", b"[D", b"[
 KEYS = [b"k1", b"k2", b"k3", b"k4", b"key five", b"az", b"bY"]      # the last two have equal djb2 hashes
 BADKEYS = [None, b""]
 STRVALS = [b"v", b"", b"two words", b"Yes Please", b"-17", b"0x1F", b"077", b"1e3", b"true", b"NO", b"_none_",
-           b"4294967296", b"2147483648", b"-1", b"99999999999999999999999", b" 12", b"12 ", b"p-", b"g@lse", b"nan", b"inf"]
+           b"4294967296", b"2147483648", b"-1", b"99999999999999999999999", b" 12", b"12 ", b"p-", b"g@lse", b"nan", b"inf", b"1e-320", b"1e999", b"0"]        # incl. texts whose float conversion leaves errno set
 BOOLWORDS = [b"yes", b"no", b"true", b"false", b"1", b"0", b"YES", b"No", b"tRuE", b"FALSE", b"", b"maybe", b"_none_", b"p-", None, b"10", b"2"]
 KINDS = ["string", "int", "int64", "uint", "uint64", "bool", "float", "double"]
 
